@@ -16,3 +16,7 @@ def run(ctx, prog):
     scan.run(ctx, prog)
     from rules import unicode
     unicode.run(ctx, prog, only_hex=True)
+    J.r_numlook(ctx, prog)
+    # which escapes exist is part of the dialect: the escape table and its scan loops
+    from rules import c17
+    c17.escape_rules(ctx, prog)
